@@ -599,10 +599,18 @@ pub fn rand_program(r: &mut Rng, depth: usize, cfg: &GenCfg) -> E {
 pub fn loop_program(n: i32, variant: usize) -> E {
     let lt = E::Bin(Bin::Lt, E::Input.b(), E::Int(n).b());
     let step = E::Reapply(E::Group(E::Bin(Bin::Add, E::Input.b(), E::Int(1).b()).b()).b());
-    let body = match variant % 3 {
+    let ge = || E::Bin(Bin::Ge, E::Input.b(), E::Int(n).b());
+    let body = match variant % 8 {
         0 => E::Cond(vec![(false, lt, step)], Some(E::Input.b())),
-        1 => E::Cond(vec![(true, E::Bin(Bin::Ge, E::Input.b(), E::Int(n).b()), step)], Some(E::Bin(Bin::Mul, E::Input.b(), E::Int(2).b()).b())),
-        _ => E::Cond(vec![(false, E::Bin(Bin::Ge, E::Input.b(), E::Int(n).b()), E::List(vec![E::Input, E::Int(9)])), (false, E::True, step)], Some(E::Unit.b())),
+        1 => E::Cond(vec![(true, ge(), step)], Some(E::Bin(Bin::Mul, E::Input.b(), E::Int(2).b()).b())),
+        2 => E::Cond(vec![(false, ge(), E::List(vec![E::Input, E::Int(9)])), (false, E::True, step)], Some(E::Unit.b())),
+        // the restart reached through brackets, through a conditional inside brackets, from a logical
+        // operand, from the else position, and from an expression nested in another
+        3 => E::Cond(vec![(false, lt, E::Group(step.b()))], Some(E::Input.b())),
+        4 => E::Cond(vec![(false, lt, E::Group(E::Cond(vec![(false, E::Bin(Bin::Lt, E::Input.b(), E::Int(100).b()), step)], Some(E::Int(100).b())).b()))], Some(E::Input.b())),
+        5 => E::Bin(Bin::And, lt.b(), E::Group(step.b()).b()),
+        6 => E::Cond(vec![(false, ge(), E::Input)], Some(step.b())),
+        _ => E::Bin(Bin::Apply, E::Nested(E::Cond(vec![(false, lt, step)], Some(E::Bin(Bin::Add, E::Input.b(), E::Int(1000).b()).b())).b()).b(), E::Input.b()),
     };
     E::Bin(Bin::Apply, E::Nested(body.b()).b(), E::Int(0).b())
 }
